@@ -52,8 +52,8 @@ def sample_sentences(rng, n_random):
     out = [f for _, f in nc.base_sentences(rng) if f[0][3:].upper() in (b'VDM', b'VDO') or f[0][3:].upper() == b'HP']
     out.append(nc.low_xor_sentence())
     for _ in range(n_random):
-        n = rng.randrange(1, 28) * 6
-        fill = rng.randrange(6)
+        n = rng.choice([rng.randrange(1, 28), rng.randrange(28, 120), rng.randrange(120, 201)]) * 6      # up to the 200 characters a
+        fill = rng.randrange(6)                                                                          # sentence may carry
         payload, f = ais.armor(''.join(rng.choice('01') for _ in range(n - fill)))
         out.append([rng.choice([b'!AIVDM', b'!AIVDO', b'!BSVDM', b'!ABvdo', b'$SAVDM']), b'1', b'1',
                     rng.choice([b'', b'', b'7']), rng.choice([b'A', b'B', b'1', b'2', b'']), payload.encode(), str(f).encode()])
